@@ -1675,6 +1675,6 @@ int main(int argc, char** argv) {
                    "distinct_nontrivial = programs whose allocated code contains a save/load/move/swap or a register operand replaced by its spill slot; states = programs, transitions = traces = programs x inputs executed";
   c.assumptions.push_back("x86-32 and AArch64 code is simulated at node level (GP alphabet only, no jump tables, no vector/list instructions); their encodings are not exercised here");
   c.assumptions.push_back("pressure 1..200 is covered through K-relative pressures and 20/36/70/130 values, not every absolute count; 8/16-bit virtual registers are exercised only as sub-registers of 32/64-bit values");
-  c.assumptions.push_back("register-list instructions and consecutive-register constraints (AArch64 ld1..ld4, x86 vp2intersect / 4-register blocks) are not in the alphabet");
+  c.assumptions.push_back("register-list instructions that need consecutive physical registers are checked by the second harness of this check (harness/c05_lists.cpp, term simulation); the x86 4-register-block forms (v4fmaddps, vp4dpwssd) do not exist in this asmjit version");
   return vh::finish();
 }
